@@ -1,0 +1,11 @@
+//go:build verif
+
+package transformer
+
+// Verification hooks (build tag "verif" only; not part of the public API).
+
+// VerifPosition returns the zero-based line and the column of a DSL syntax error, so that a test
+// harness does not have to parse them out of the error text.
+func (err *OpenFgaDslSyntaxError) VerifPosition() (int, int) {
+	return err.line, err.column
+}
